@@ -20,6 +20,7 @@ func init() {
 			"(D2) whole answer, any position: the loop ranges over the full answer section, and the only ways out of it before the end are an error or a filtered record; (D3) replace and keep: on a filtered record the original upstream response is saved before the delivered response is overwritten with the blocking-mode message; " +
 			"(D4) gating: results that were allow-listed, rewritten or safe-search skip response filtering; otherwise it runs exactly when protection is on, the response came from an upstream and filtering is enabled for the client; the from-upstream flag becomes (constant) true on every successful resolution. " +
 			"(D5) a match that carries hosts-style rules is never turned into a not-filtered result, whatever the record type asked about (the response filter passes the answer record's type: CNAME, A, AAAA, HTTPS): in matchHostProcessDNSResult and the helpers it returns through, the zero Result is returned only on paths where both HostRulesV4 and HostRulesV6 were found empty. " +
+			"(D6) no remembered verdict: checkHostRules, through which every answer record is checked, returns without an error only after the filter matched this very host and type under this request's settings. " +
 			"Not decided: rule matching on IP literals, 'allow rule for that same name or address overrides' (urlfilter semantics), the content of IPv6-hint stripping.",
 		RuleText:    "Type-switch cases and their operands from SSA type assertions; loop-exit path guards; store ordering; switch-case sets vs declared constants.",
 		Assumptions: []string{"urlfilter rule semantics are external", "dnsproxy sets pctx.Res on successful Resolve"},
@@ -343,13 +344,14 @@ func runC02(c *Ctx) {
 	r.Check(nF > 0 && len(off) == 0, "C02-D3", "replace-only-when-filtered", p.FnPos(fr), "the response is replaced only for a filtered record", "the response can be replaced although no record was filtered", traceOf(p, off)...)
 	var starts []core.Point
 	for e := range gF {
-		starts = append(starts, core.Point{Block: e.From.Succs[e.Succ], Idx: 0})
+		starts = append(starts, core.AfterEdge(e))
 	}
 	f2, _, _ := core.Reach(core.Query{From: starts, Target: core.IsReturn, Avoid: resStore})
 	r.Check(len(starts) > 0 && !f2, "C02-D3", "filtered-record-replaces-response", p.FnPos(fr), "a filtered record always replaces the delivered response", "a filtered record can leave the delivered response untouched")
 
 	c02Gating(c)
 	c02HostRulesAlwaysFilter(c)
+	c02EveryRecordIsMatched(c)
 }
 
 // c02HostRulesAlwaysFilter: D5 — the engine result handed to
@@ -532,7 +534,7 @@ func c02Gating(c *Ctx) {
 		})
 		var starts []core.Point
 		for e := range gOK {
-			starts = append(starts, core.Point{Block: e.From.Succs[e.Succ], Idx: 0})
+			starts = append(starts, core.AfterEdge(e))
 		}
 		setTrue := func(in ssa.Instruction) bool {
 			st, ok := in.(*ssa.Store)
@@ -565,4 +567,39 @@ func c02Gating(c *Ctx) {
 			}
 		}
 	}
+}
+
+// c02EveryRecordIsMatched: D6 — the verdict for a record of an answer depends
+// on the rule sets in force and on the client's settings (its own filtering
+// switch, its name and tags), not only on the record: checkHostRules, through
+// which every record is checked, returns without an error only after the
+// filter's CheckHostRules was asked with this very host, type and settings.
+// No remembered verdict can stand in for it.
+func c02EveryRecordIsMatched(c *Ctx) {
+	p, r := c.P, c.R
+	fn := p.Fn("(*dnsforward.Server).checkHostRules")
+	if fn == nil || len(fn.Params) != 4 {
+		r.Undecided("C02-D6", "checkHostRules", "-", "anchor not found")
+		return
+	}
+	asked := func(in ssa.Instruction) bool {
+		call, ok := in.(*ssa.Call)
+		if !ok || core.CalleeKey(call.Common()) != "(*filtering.DNSFilter).CheckHostRules" {
+			return false
+		}
+		a := call.Common().Args
+		return len(a) == 4 && core.ResolveCellLoad(a[1]) == ssa.Value(fn.Params[1]) && core.ResolveCellLoad(a[2]) == ssa.Value(fn.Params[2]) && core.ResolveCellLoad(a[3]) == ssa.Value(fn.Params[3])
+	}
+	n := 0
+	for _, b := range fn.Blocks {
+		for _, in := range b.Instrs {
+			if asked(in) {
+				n++
+			}
+		}
+	}
+	found, tr, _ := core.Reach(core.Query{From: []core.Point{core.Entry(fn)}, Target: func(in ssa.Instruction) bool { return isSuccessReturn(fn, in) }, Avoid: asked})
+	r.Check(n > 0 && !found, "C02-D6", "every-record-asks-the-filter", p.FnPos(fn),
+		"checkHostRules succeeds only after the filter matched this host and type under this request's settings",
+		"checkHostRules can answer without asking the filter for this host, type and settings (a remembered verdict): a record that is clean for one client or rule set is delivered to a client, or after a rule change, for which it is blocked", p.TraceString(tr))
 }
